@@ -1,0 +1,28 @@
+//go:build verif
+
+// Ghost lemma functions for the verifier under /verif (never called; compiled
+// only with -tags verif). Their contracts are in zz_verif_contracts.go.
+
+package inmem
+
+import (
+	"context"
+
+	"github.com/hashicorp/nodeenrollment"
+)
+
+// lemmaStoreLoad: store a, then load into b (same type, same id).
+func lemmaStoreLoad(ctx context.Context, ts *Storage, a, b nodeenrollment.MessageWithId) (serr, lerr error) {
+	serr = ts.Store(ctx, a)
+	if serr != nil {
+		return serr, nil
+	}
+	lerr = ts.Load(ctx, b)
+	return nil, lerr
+}
+
+// lemmaTypesApart: a store followed by a remove of a message of one type.
+func lemmaTypesApart(ctx context.Context, ts *Storage, a nodeenrollment.MessageWithId) {
+	_ = ts.Store(ctx, a)
+	_ = ts.Remove(ctx, a)
+}
